@@ -1,11 +1,102 @@
-/- Hand-written executable model (tie B): Vario.  Core Lean only — no Mathlib import in this file. -/
+/- Hand-written executable model (tie B): Vario — the preprocessing glue of `vario_estimate`
+   (variogram/variogram.py): common-mask rule, no-data handling, direction normalisation, bandwidth
+   default, seeded sub-sampling (indices supplied by numpy), unit conversion of great-circle bins,
+   `_separate_dirs_test`.  What reaches the kernel is what this model returns.  Core Lean only. -/
 import GSV.Proto
 open Lean GSV GSV.Proto GSV.Transc
 namespace GSV.Model.Vario
 
-/-- line-protocol operations of this model; `none` = not one of mine -/
+variable {α : Type} [Arith α] [Transc α] [DecidableLT α] [DecidableLE α]
+
+/-- `np.isclose(a, b)` with default tolerances: `|a − b| ≤ 1e-8 + 1e-5·|b|` (NaN never close) -/
+def isclose (a b : α) : Bool := decide (fabs (a - b) ≤ (1e-8 : α) + (1e-5 : α) * fabs b)
+
+/-- selection rule: a point survives iff it is not in the extra mask and not masked in *all* fields -/
+def selectPoint (extraMask : Option (Nat → Bool)) (fmask : Nat → Nat → Bool) (nf : Nat) (p : Nat) : Bool :=
+  let allMasked := (List.range nf).all fun m => fmask m p
+  match extraMask with
+  | some em => !(em p || allMasked)
+  | none => !allMasked
+
+/-- the kept point indices, in order -/
+def keptPoints (extraMask : Option (Nat → Bool)) (fmask : Nat → Nat → Bool) (nf np : Nat) : List Nat :=
+  (List.range np).filter (selectPoint extraMask fmask nf)
+
+/-- value handed to the kernel for field `m`, original point `p`: masked → NaN, then no-data → NaN -/
+def cellValue (nan : α) (f : Nat → Nat → α) (fmask : Nat → Nat → Bool) (noData : Option α) (m p : Nat) : α :=
+  let v := if fmask m p then nan else f m p
+  match noData with
+  | some nd => if isclose v nd then nan else v
+  | none => v
+
+/-- the prepared (positions, field) as index lists into the original arrays: point list after masking
+    and after sub-sampling with the given index vector (`sampled = none`: no sub-sampling) -/
+def finalPoints (kept : List Nat) (sampled : Option (List Nat)) : List Nat :=
+  match sampled with
+  | some idx => idx.map fun i => kept.getD i 0
+  | none => kept
+
+/-- direction normalisation `d / ‖d‖` -/
+def normDir (d : List α) : List α :=
+  let n := sqrt (d.foldl (fun acc x => acc + x * x) ((0:Nat):α))
+  d.map (· / n)
+
+def dotL (a b : List α) : α := (a.zip b).foldl (fun acc p => acc + p.1 * p.2) ((0:Nat):α)
+
+/-- `_separate_dirs_test` -/
+def separateDirs (dirs : List (List α)) (tol : α) : Bool :=
+  let n := dirs.length
+  (List.range n).all fun i => (List.range n).all fun j =>
+    if i < j then
+      let s := fabs (dotL (dirs.getD i []) (dirs.getD j []))
+      let s := if ((1:Nat):α) < s then ((1:Nat):α) else s
+      decide (acos s ≥ ((2:Nat):α) * tol)
+    else true
+
+/-- great-circle bins in an arbitrary length unit are converted to radians -/
+def binsToRadians (bins : List α) (latlon : Bool) (geoScale : α) : List α :=
+  if latlon then bins.map (· / geoScale) else bins
+
+/-! ### driver -/
+
+def getBools (j : Json) (k : String) : Except String (Array Bool) := do
+  let v ← j.getObjVal? k
+  let a ← v.getArr?
+  a.mapM fun x => match x with
+    | Json.bool b => pure b
+    | Json.num n => pure (n.mantissa != 0)
+    | _ => throw "bool expected"
+
 def ops (op : String) (j : Json) : Option (Except String Json) :=
   match op with
+  | "vario_prep" => some (do
+      let nf ← getNat j "F"; let np ← getNat j "P"
+      let f ← getFloats j "f"; let fm ← getBools j "fmask"
+      let em : Option (Nat → Bool) ← match j.getObjVal? "mask" with
+        | .ok (Json.arr _) => do let m ← getBools j "mask"; pure (some (fun p => m[p]!))
+        | _ => pure none
+      let nd : Option Float ← match j.getObjVal? "no_data" with
+        | .ok (Json.num _) => do let x ← getFloat j "no_data"; pure (some x)
+        | _ => pure none
+      let sampled : Option (List Nat) ← match j.getObjVal? "sampled" with
+        | .ok (Json.arr _) => do let a ← getNats j "sampled"; pure (some a.toList)
+        | _ => pure none
+      let fmask := fun m p => fm[m * np + p]!
+      let kept := keptPoints em fmask nf np
+      let pts := finalPoints kept sampled
+      let nan : Float := 0.0 / 0.0
+      let vals := (List.range nf).map fun m => pts.map fun p => cellValue nan (ofList2 f np) fmask nd m p
+      return Json.mkObj [("points", Json.arr (pts.map fun (n : Nat) => Json.num (JsonNumber.fromNat n)).toArray),
+                         ("field", fl2 vals)])
+  | "vario_dirs" => some (do
+      let dim ← getNat j "dim"; let nd ← getNat j "D"
+      let d ← getFloats j "dir"; let tol ← getFloat j "tol"
+      let dirs := (List.range nd).map fun i => (List.range dim).map fun k => d[i * dim + k]!
+      let nd' := dirs.map normDir
+      return Json.mkObj [("dirs", fl2 nd'), ("separate", Json.bool (separateDirs nd' tol))])
+  | "vario_bins" => some (do
+      let b ← getFloats j "bins"; let ll ← getBool j "latlon"; let gs ← getFloat j "geo_scale"
+      return fl (binsToRadians b.toList ll gs))
   | _ => none
 
 end GSV.Model.Vario
